@@ -524,6 +524,11 @@ pub assume_specification<T, U, F> [std::option::Option::<T>::map_or] (o: std::op
     ensures
         o is None ==> r == default,
         o matches Some(x) ==> call_ensures(f, (x,), r);
+// [A-string-eq-str] `String == &str` / `String != &str` compare the characters
+pub assume_specification<'a> [<String as PartialEq<&'a str>>::eq] (a: &String, b: &&str) -> (r: bool)
+    ensures r == (a@ == b@);
+pub assume_specification<'a> [<String as PartialEq<&'a str>>::ne] (a: &String, b: &&str) -> (r: bool)
+    ensures r == (a@ != b@);
 // [A-result-unwrap-or] Result::unwrap_or / unwrap_or_default (the default value itself is not specified)
 pub assume_specification<T, E> [std::result::Result::<T, E>::unwrap_or] (res: std::result::Result<T, E>, default: T) -> (r: T)
     ensures r == (match res { Ok(v) => v, Err(_) => default });
